@@ -19,6 +19,12 @@ impl ScopedCounter {
         *self.count.borrow()
     }
 
+    pub fn starting_at(count: usize) -> ScopedCounter {
+        ScopedCounter {
+            count: RefCell::new(count),
+        }
+    }
+
     pub fn inc<'a>(&'a self) -> ScopedCounterRef<'a> {
         {
             let mut count = self.count.borrow_mut();
